@@ -67,10 +67,17 @@ def run(pid, tier, seed, rundir, model_run):
     # the remote `xargs … rm` with a list cut in the middle of a name — no prefix of a stale name may be taken for a path.
     # What the remote xargs is handed is recorded by a stand-in (tools/xargslog/xargs): every item must be a planned name.
     configs = configs + [("push-longlist", ["--jobs", "1", "--delete"])]
+    # and one push of a file whose destination version has EXACTLY the source's length, one job, killed before every write of the
+    # stream: whatever the orphaned remote command does with a rejected upload (clean-up, stamping), the old file must stay
+    # recognisably old — the same command run again has to deliver the new bytes
+    configs = configs + [("push-samelen", ["--jobs", "1"])]
     for direction, flags in configs:
         src, dst = scenario_trees(rng)
         longlist = direction == "push-longlist"
-        if longlist:
+        if direction == "push-samelen":
+            direction = "push"; longlist = True          # (sweeps the writes only)
+            src = {"mid.bin": src["mid.bin"], "small.txt": b"small new\n"}; dst = {"mid.bin": dst["mid.bin"], "small.txt": b"small old version\n"}
+        elif longlist:
             direction = "push"
             src = {"small.txt": b"small new\n", "keep/k.txt": b"kept"}; dst = {"small.txt": b"small old version\n", "keep/k.txt": b"kept"}
             for i in range(1150):          # > 64 KiB of names: more than one pipe-full
